@@ -36,7 +36,8 @@ def ReprOk (X : Ext T S R) : Prop := ∀ s, X.parse "python-literal" (X.repr s) 
 /-- a failing read of text raises an OSError (missing file, directory, permissions) or a
     UnicodeError (bytes that are no text), both `Exception` subclasses -/
 def isTextReadErr (X : Ext T S R) (c : String) : Bool :=
-  (X.mro c).contains "Exception" && ((X.mro c).contains "OSError" || (X.mro c).contains "UnicodeError")
+  (X.mro c).contains "Exception" && (X.mro c).contains "BaseException" &&
+  ((X.mro c).contains "OSError" || ((X.mro c).contains "UnicodeError" && (X.mro c).contains "ValueError"))
 
 /-- trusted: how reading a file / standard input fails (checked on every case by the driver) -/
 structure ReadErrOk (X : Ext T S R) (w : World) : Prop where
@@ -68,11 +69,21 @@ theorem caughtBy_of_mem (X : Ext T S R) (names : List String) (c n : String)
 theorem caught_read (X : Ext T S R) (names : List String) (c : String)
     (hn : readCatchWF names = true) (hc : isTextReadErr X c = true) : caughtBy X names c = true := by
   simp only [readCatchWF, isTextReadErr, Bool.and_eq_true, Bool.or_eq_true] at hn hc
-  rcases hn with hn | ⟨ho, hu⟩
-  · exact caughtBy_of_mem X names c "Exception" hc.1 hn
-  · rcases hc.2 with h | h
+  obtain ⟨⟨hexc, hbase⟩, hcls⟩ := hc
+  have top : (names.contains "Exception" = true ∨ names.contains "BaseException" = true) →
+      caughtBy X names c = true := by
+    rintro (h | h)
+    · exact caughtBy_of_mem X names c "Exception" hexc h
+    · exact caughtBy_of_mem X names c "BaseException" hbase h
+  obtain ⟨ho, hu⟩ := hn
+  rcases hcls with h | ⟨h1, h2⟩
+  · rcases ho with ho | ho
     · exact caughtBy_of_mem X names c "OSError" h ho
-    · exact caughtBy_of_mem X names c "UnicodeError" h hu
+    · exact top ho
+  · rcases hu with (hu | hu) | hu
+    · exact caughtBy_of_mem X names c "UnicodeError" h1 hu
+    · exact caughtBy_of_mem X names c "ValueError" h2 hu
+    · exact top hu
 
 /-- the handler of a format's loader catches whatever the loader raises -/
 theorem caught_load {F : Facts} (hc : catchWF F.targetLoaders F.loadCatch F.loaderRaises = true)
